@@ -406,6 +406,45 @@ example : dbLookup (estimateReturn (some [("res_y", 7), ("extra", 1)]) [("y", 2)
 
 end IrisVerif.C18
 
+/-! ## Part 4: change of units (data-scale equivariance) -/
+
+namespace IrisVerif.C18
+open IrisVerif.LeastSquares
+
+section Units
+variable {v k T : Type} [Fintype v] [Fintype k] [Fintype T] [DecidableEq k]
+variable {K : Type} [Field K]
+
+/-- **Change of units.** If `β` solves the normal equations for `(Y, X)`, the left-hand data are multiplied by `s` and the
+regressor rows are transformed by any matrix `D` (for a VAR: `s` on the lag and exogenous rows, 1 on the intercept row),
+then any `β'` with `β' D = s β` solves the normal equations of the transformed problem: the lag matrices are unchanged
+and the intercept is multiplied by `s`, exactly — a small intercept is never a zero intercept. -/
+theorem normalEq_rescale (Y : Matrix v T K) (X : Matrix k T K) (β β' : Matrix v k K) (D : Matrix k k K) (s : K)
+    (h : NormalEq Y X β) (hβ : β' * D = s • β) : NormalEq (s • Y) (D * X) β' := by
+  unfold NormalEq at h ⊢
+  have hD : Dᵀ * β'ᵀ = s • βᵀ := by rw [← Matrix.transpose_mul, hβ, Matrix.transpose_smul]
+  calc D * X * (D * X)ᵀ * β'ᵀ = D * X * Xᵀ * (Dᵀ * β'ᵀ) := by
+        simp only [Matrix.transpose_mul, Matrix.mul_assoc]
+    _ = s • (D * (X * Xᵀ * βᵀ)) := by rw [hD]; simp only [Matrix.mul_smul, Matrix.mul_assoc]
+    _ = D * X * (s • Y)ᵀ := by rw [h]; simp only [Matrix.transpose_smul, Matrix.mul_smul, Matrix.mul_assoc]
+
+/-- the companion-form mean scales with the intercept: `(I − ΣA) μ = c ⇒ (I − ΣA)(s μ) = s c`; in particular the mean of a
+VAR with a non-zero intercept, however small, is `s` times a non-zero vector whenever `μ ≠ 0` -/
+theorem mean_scale {n : Type} [Fintype n] [DecidableEq n] (M : Matrix n n K) (c μ : n → K) (s : K)
+    (h : M *ᵥ μ = c) : M *ᵥ (s • μ) = s • c := by
+  rw [Matrix.mulVec_smul, h]
+
+end Units
+
+-- non-vacuity: the regression y = 1 + t of the examples above in units 1/8: β = (1, 1) becomes (1/8, 1) with D = diag(1/8 … )
+example : ∃ (β' : Matrix (Fin 1) (Fin 2) ℚ) (D : Matrix (Fin 2) (Fin 2) ℚ),
+    β' * D = (1/8 : ℚ) • (!![1, 1] : Matrix (Fin 1) (Fin 2) ℚ) :=
+  ⟨!![1/8, 1], !![1, 0; 0, 1/8], by
+    ext i j; fin_cases i; fin_cases j <;> simp [Matrix.mul_apply, Matrix.vecMul, dotProduct, Fin.sum_univ_succ]⟩
+
+
+end IrisVerif.C18
+
 /-! ## non-vacuity -/
 
 namespace IrisVerif.C18
